@@ -188,7 +188,16 @@ def rule_e(chk: Check, eng: Engine, parser: ClassInfo, memo: str, getters, sette
             continue
         key_names = {n.id for el in e.elts for n in ast.walk(el) if isinstance(n, ast.Name)}
         producers = []
+        # calls of the class's own generator methods (wherever they are consumed: a for loop, next(), a wrapper object) ...
         for n in walk_local(f.node):
+            if isinstance(n, ast.Call) and isinstance(n.func, ast.Attribute) and self_attr(n.func) is not None and n.func.attr != f.name:
+                callee = parser.lookup(n.func.attr)
+                if callee is not None and callee.is_generator():
+                    producers.append(n)
+        # ... or, failing that, any iterated call on self next to a yield
+        for n in walk_local(f.node):
+            if producers:
+                break
             if isinstance(n, ast.For) and isinstance(n.iter, ast.Call) and isinstance(n.iter.func, ast.Attribute) and isinstance(n.iter.func.value, (ast.Name, ast.Attribute)) \
                     and norm(n.iter.func.value).split(".")[0] == "self" and any(isinstance(y, (ast.Yield, ast.YieldFrom)) for y in ast.walk(n)):
                 producers.append(n.iter)
